@@ -757,7 +757,9 @@ func ruleStartupCapture(c *Check, rule string) {
 		upd := callsOf(p, "(*lmdb.Env).Update")
 		has := false
 		for _, u := range upd {
-			if len(u.Args) == 2 && strings.HasPrefix(u.Args[1], "closure:"+fnSyncLoop+"$") {
+			// the transaction body: a closure of syncLoop, or of a helper the
+			// start-up capture was moved into
+			if len(u.Args) == 2 && strings.HasPrefix(u.Args[1], "closure:") {
 				cl := c.P.Func(strings.TrimPrefix(u.Args[1], "closure:"))
 				if cl != nil && funcCalls(cl, "syncer.(*Syncer).mainToShadow") {
 					has = true
